@@ -82,7 +82,7 @@ func parseExe(root *Root, reader io.Reader) (exe *Executable, err error) {
 					exe.Ops[""] = op
 				}
 			default:
-				err = parseError(p.line, p.col-len(token), "'%s' is not a valid executable operation type", token)
+				err = parseError(p.tokLine, p.tokCol, "'%s' is not a valid executable operation type", token)
 			}
 		}
 	}
@@ -93,6 +93,8 @@ func (p *exeParser) readOp(opType OpType) (op *Op, err error) {
 	op = &Op{Type: opType, SelBase: SelBase{line: p.line, col: p.col}}
 
 	if _, err = p.skipSpace(); err == nil {
+		// Where the name starts, maybe on a later line than the keyword.
+		op.line = p.line
 		op.col = p.col
 		op.Name, err = p.readToken()
 	}
@@ -196,11 +198,10 @@ func (p *exeParser) readFragment() (sel Selection, err error) {
 		switch token {
 		case "on":
 			var t Type
-			line := p.line
-			col := p.col
 			if t, err = p.readType(); err == nil {
 				if _, ok := t.(*Ref); ok {
-					err = parseError(line, col, "type %s not defined", t.Name())
+					// at the name, the token read last
+					err = parseError(p.tokLine, p.tokCol-1, "type %s not defined", t.Name())
 				} else {
 					sel, err = p.readInline(t)
 				}
@@ -219,7 +220,7 @@ func (p *exeParser) readFragRef(token string) (fr *FragRef, err error) {
 	if frag := p.exe.Fragments[token]; frag != nil {
 		fr.Fragment = frag
 	} else {
-		fr.Fragment = &Fragment{Name: token, Inline: Inline{SelBase: SelBase{line: p.line, col: p.col - len(token)}}}
+		fr.Fragment = &Fragment{Name: token, Inline: Inline{SelBase: SelBase{line: p.tokLine, col: p.tokCol}}}
 		if p.exe.Fragments == nil {
 			p.exe.Fragments = map[string]*Fragment{token: fr.Fragment}
 		} else {
@@ -254,7 +255,11 @@ func (p *exeParser) readFragmentDef() (frag *Fragment, err error) {
 	if err == nil {
 		var token string
 		if token, err = p.readToken(); token != "on" {
-			err = parseError(p.line, p.col-2, "missing fragment condition")
+			if 0 < len(token) {
+				err = parseError(p.tokLine, p.tokCol, "missing fragment condition")
+			} else {
+				err = parseError(p.line, p.col, "missing fragment condition")
+			}
 		}
 	}
 	if err == nil {
@@ -312,8 +317,8 @@ func (p *exeParser) readVarDef() (vd *VarDef, err error) {
 	if len(vd.Name) == 0 {
 		return nil, parseError(p.line, p.col, "variable name missing")
 	}
-	vd.line = p.line
-	vd.col = p.col - len(vd.Name)
+	vd.line = p.tokLine
+	vd.col = p.tokCol
 	var b byte
 	if b, err = p.skipSpace(); err != nil {
 		return nil, err
